@@ -462,8 +462,21 @@ func runC19Seq(ch *core.Chooser, env *Env, out *Outcome) *Outcome {
 	// rule of it before the fault (bounded caches, eviction), DNS engine only
 	big := ch.Intn("c19.big", 40) == 39
 	bigN := 0
+	bigPartial := false
+	inFlood := func(i int) bool { return !bigPartial || (uint32(i)*2654435761>>7)%4 != 0 }
 	if big {
 		bigN = []int{8500, 8500, 12000, 20000, 36000}[ch.Intn("c19.bigsize", 5)] + ch.Intn("c19.bign", 3000)
+		if env.Thorough && ch.Intn("c19.huge", 4) == 3 {
+			// beyond 64k entries
+			bigN = 66000 + ch.Intn("c19.bign", 6000)
+		}
+		// or a list of 90-250 KiB of which the flood materialises only
+		// three rules in four: after the fault the others are looked for
+		// in the file, block after block, again and again
+		if ch.Intn("c19.bigpartial", 3) == 2 {
+			bigPartial = true
+			bigN = 4000 + ch.Intn("c19.bign", 7000)
+		}
 		var b strings.Builder
 		for i := 0; i < bigN; i++ {
 			fmt.Fprintf(&b, "||b%d.example.org^\n", i)
@@ -477,8 +490,15 @@ func runC19Seq(ch *core.Chooser, env *Env, out *Outcome) *Outcome {
 		hist = hist[:0]
 		for i := 0; i < bigN; i += 83 {
 			hist = append(hist, workload.Op{Kind: workload.OpDNS, Host: fmt.Sprintf("b%d.example.org", i), DNSType: 1})
+			if bigPartial {
+				// neighbours in the same block of the file
+				hist = append(hist, workload.Op{Kind: workload.OpDNS, Host: fmt.Sprintf("b%d.example.org", i+1+i%5), DNSType: 1})
+			}
 		}
 		reps = 1
+		if bigPartial {
+			reps = 2
+		}
 	}
 	newEngines := func(s *filterlist.RuleStorage) *workload.Engines {
 		if big {
@@ -534,7 +554,9 @@ func runC19Seq(ch *core.Chooser, env *Env, out *Outcome) *Outcome {
 		e = newEngines(sub.Storage)
 		// the flood: every rule of the big list is materialised and served
 		for i := 0; i < bigN; i++ {
-			served(workload.Exec(e, &workload.Op{Kind: workload.OpDNS, Host: fmt.Sprintf("b%d.example.org", i), DNSType: 1}), P)
+			if inFlood(i) {
+				served(workload.Exec(e, &workload.Op{Kind: workload.OpDNS, Host: fmt.Sprintf("b%d.example.org", i), DNSType: 1}), P)
+			}
 		}
 	}); perr != "" {
 		out.Invalid, out.InvalidReason = true, perr
@@ -542,6 +564,9 @@ func runC19Seq(ch *core.Chooser, env *Env, out *Outcome) *Outcome {
 	}
 	if big {
 		out.Probes["big_list_runs"]++
+		if bigPartial {
+			out.Probes["big_list_runs_partly_materialised"]++
+		}
 		out.Probes["rules_materialised_by_floods"] += len(P)
 	}
 	inMem := inMemIDs(lists)
